@@ -137,6 +137,9 @@ func C04(c *run.Ctx) {
 		var gens []*sim.Tok
 		for d := 0; d < depth && victim.Latest != nil && victim.Killed == ""; d++ {
 			gens = append(gens, victim.Latest)
+			if i%3 == 0 {
+				s.Advance(time.Duration(5+r.Intn(20)) * time.Minute)
+			}
 			s.Refresh(victim.Latest, "", nil)
 			s.Sweep("refresh")
 			if r.Intn(3) == 0 {
@@ -144,8 +147,19 @@ func C04(c *run.Ctx) {
 				s.Sweep("step")
 			}
 		}
+		if len(gens) > 0 && victim.Killed == "" && victim.Latest != nil && !gens[0].Exp.IsZero() && !victim.Latest.Exp.IsZero() && i%3 == 0 {
+			// replay an early generation after ITS expiry but while the newest generation is still valid
+			if d := gens[0].Exp.Add(time.Second).Sub(time.Now()); d > 0 && gens[0].Exp.Add(time.Second).Before(victim.Latest.Exp) {
+				s.Advance(d)
+				s.Sweep("advance-past-old-generation")
+				c.Count("reuse_of_expired_generation", 1)
+			}
+		}
 		if len(gens) > 0 && victim.Killed == "" {
 			old := gens[r.Intn(len(gens))]
+			if i%3 == 0 {
+				old = gens[0]
+			}
 			s.Refresh(old, "", nil) // reuse of generation g < latest
 			s.Sweep("reuse")
 		}
